@@ -90,13 +90,19 @@ def body (sys : Sys S) (strat : Strategy) (j : Nat) (s' : S) : List (Op Path) :=
 
 theorem iterOps_eq (sys : Sys S) (strat : Strategy) (j : Nat) (s' : S) :
     iterOpsA sys .repaired strat j s' ++ iterOpsB sys .repaired strat j =
-      body sys strat j s' ++ [Op.replace .markerTmp .marker] ++ appendFile .counting (sys.msgC j) := by
+      invalidate .repaired strat ++
+        (body sys strat j s' ++ [Op.replace .markerTmp .marker] ++ appendFile .counting (sys.msgC j)) := by
   simp [iterOpsA, iterOpsB, body, saveValues, saveMarker, atomicWrite, List.append_assoc]
 
-theorem iterOpsA_prefix_body (sys : Sys S) (strat : Strategy) (j : Nat) (s' : S) :
-    iterOpsA sys .repaired strat j s' <+: body sys strat j s' := by
-  simp only [iterOpsA, body, saveValues, List.append_nil, List.append_assoc]
-  refine ⟨atomicWrite (.mhist (baseOf strat j)) (.mhistTmp (baseOf strat j)) (sys.encM j) ++
+theorem iterOps_eq_all (sys : Sys S) (j : Nat) (s' : S) :
+    iterOpsA sys .repaired .all j s' ++ iterOpsB sys .repaired .all j =
+      body sys .all j s' ++ [Op.replace .markerTmp .marker] ++ appendFile .counting (sys.msgC j) := by
+  rw [iterOps_eq]; simp [invalidate]
+
+theorem iterOpsA_prefix_body (sys : Sys S) (j : Nat) (s' : S) :
+    iterOpsA sys .repaired .all j s' <+: body sys .all j s' := by
+  simp only [iterOpsA, invalidate, body, saveValues, List.append_nil, List.nil_append, List.append_assoc]
+  refine ⟨atomicWrite (.mhist (baseOf .all j)) (.mhistTmp (baseOf .all j)) (sys.encM j) ++
     writeFile .markerTmp (sys.digits j), ?_⟩
   simp [List.append_assoc]
 
@@ -356,7 +362,7 @@ theorem loop_good {sys : Sys S} (hl : Lawful sys) (s0 : S) (total : Nat) :
   | succ fuel ih =>
     intro j fs hj hpre
     -- the minisanity-history check in the middle of the iteration passes
-    have hA := iterOpsA_prefix_body sys .all j (sys.step j (sAfter sys s0 j))
+    have hA := iterOpsA_prefix_body sys j (sys.step j (sAfter sys s0 j))
     have hchk : (if j = 0 then Except.ok () else
         loadable (execs fs (iterOpsA sys .repaired .all j (sys.step j (sAfter sys s0 j))))
           (.mhist (baseOf .all (j - 1))) sys.okM) = Except.ok () := by
@@ -371,7 +377,7 @@ theorem loop_good {sys : Sys S} (hl : Lawful sys) (s0 : S) (total : Nat) :
           simp [loadable, baseOf, this, hm, hom]
     have hpre' : Pre sys s0 (j + 1) (execs fs (iterOpsA sys .repaired .all j (sys.step j (sAfter sys s0 j)) ++
         iterOpsB sys .repaired .all j)) := by
-      rw [iterOps_eq]
+      rw [iterOps_eq_all]
       exact Or.inr ⟨j, rfl, goodAt_after_iter hl hpre (List.prefix_refl _)⟩
     have hrec := ih (j + 1) _ (by omega) hpre'
     rw [sAfter_succ] at hrec
@@ -381,7 +387,7 @@ theorem loop_good {sys : Sys S} (hl : Lawful sys) (s0 : S) (total : Nat) :
     intro pre hp
     rcases prefix_append_cases hp with h | ⟨t, rfl, ht⟩
     · -- crash inside iteration j
-      rw [iterOps_eq, List.append_assoc] at h
+      rw [iterOps_eq_all, List.append_assoc] at h
       rcases prefix_append_cases h with h1 | ⟨t1, rfl, ht1⟩
       · exact pre_good (by omega) (pre_body_prefix hpre _ h1)
       · rw [List.singleton_append, List.prefix_cons_iff] at ht1
